@@ -771,4 +771,171 @@ class C23(HistoryProfile):
                                   sorted(set(type(x).__name__ for x in pre_cells.values()))))
 
 
-PROFILES = [C13(), C14(), C39(), C28(), C23()]
+# -- C16 ------------------------------------------------------------------------------------------
+
+RENAME_TARGETS = ["class", "1abc", "a b", "é", "Ünï", "名前", "", "Alpha", "id", "a-b",
+                  "x" * 40, "def", "if", "New Name", "total", "Total", "TOTAL", "lookupRecords", "rec",
+                  "table", "value", "$x", "a.b", "None", "_priv", "sum", "len"]
+# Not in the pool: "SUM", "Record", ... -- a table renamed to the name of a formula function
+# shadows it in the generated module (finding F-y); "group"/"count" -- a source column with the id
+# of a summary helper column drags that helper along when renamed (finding F-x).
+
+import re as _re
+_TOKEN = _re.compile(r"""\$?[A-Za-z_]\w*|"(?:[^"\\]|\\.)*"|'(?:[^'\\]|\\.)*'|\s+|.""", _re.S)
+
+
+def op_rename_any(g, dv, protected):
+  """Rename a column or table by any of the rename paths, to a fresh or a hostile name."""
+  rng = g.rng
+  tables = gen.data_tables(dv)
+  if not tables:
+    return None
+  t = rng.choice(tables)
+  hostile = rng.random() < 0.45
+  if rng.random() < 0.3:
+    new = rng.choice(RENAME_TARGETS) if hostile else g.new_table_id()
+    path = rng.random()
+    if path < 0.5:
+      return [["RenameTable", t.tableId, new]]
+    if path < 0.75:
+      return [["UpdateRecord", "_grist_Tables", t.ref, {"tableId": new}]]
+    if t.rawSection:
+      return [["UpdateRecord", "_grist_Views_section", t.rawSection, {"title": new}]]
+    return [["RenameTable", t.tableId, new]]
+  cols = [c for c in t.user_cols() if not c.summarySourceCol]
+  if not cols:
+    return None
+  c = rng.choice(cols)
+  new = rng.choice(RENAME_TARGETS) if hostile else g.new_col_id("r")
+  path = rng.random()
+  if path < 0.4:
+    return [["RenameColumn", t.tableId, c.colId, new]]
+  if path < 0.6:
+    return [["UpdateRecord", "_grist_Tables_column", c.ref, {"colId": new}]]
+  if path < 0.8 and not c.untie:
+    return [["UpdateRecord", "_grist_Tables_column", c.ref, {"label": new}]]
+  if path < 0.9 and not c.untie:
+    return [["ModifyColumn", t.tableId, c.colId, {"label": new}]]
+  return [["ModifyColumn", t.tableId, c.colId, {"colId": new}]] if False else \
+         [["RenameColumn", t.tableId, c.colId, new]]
+
+
+gen.OPS["rename_any"] = op_rename_any
+
+
+class C16(HistoryProfile):
+  prop = "C16"
+  name = "c16"
+  technique = ("deterministic simulation: documents whose formulas use every supported reference "
+               "form, renamed by every rename path to fresh and hostile names through seeded histories "
+               "(with undo/redo); formula values keyed through the rename, and a token diff of the text")
+  max_events = 34
+  p_undo = 0.08
+  p_redo_after_undo = 0.6
+
+  def base_weights(self):
+    w = dict(gen.DEFAULT_WEIGHTS)
+    w.update({"rename_any": 40, "rename_column": 0, "rename_table": 0, "add_formula_column": 24,
+              "remove_column": 0, "remove_table": 0, "modify_type": 0, "toggle_formula": 0,
+              "add_summary": 4, "add_summary_formula": 3, "update_summary": 1, "detach_summary": 0,
+              "add_data_column": 8, "update_records": 8, "add_records": 6, "remove_records": 2,
+              "duplicate_table": 1, "display_formula": 2, "trigger_column": 1, "modify_formula": 4})
+    return w
+
+  def config(self, rng, tier):
+    cfg = super(C16, self).config(rng, tier)
+    cfg["weights"] = gen.swarm_weights(rng, self.base_weights(),
+                                       keep=("add_records", "add_table", "add_formula_column",
+                                             "rename_any", "add_data_column"), p_off=0.3)
+    cfg["formula_kinds"] = ["arith", "str", "ref", "reflist", "lookup", "lookupone", "count", "all",
+                            "contains", "find", "prevnext", "prevnext", "lookup"]
+    cfg["rich_specs"] = True
+    cfg["no_sort_by"] = True     # legacy sort_by= strings are not among the rewritten forms
+    return cfg
+
+  def check(self, sim, out, st):
+    ev = out.ev
+    if ev["k"] != "bundle" or "rename_any" not in ev.get("ops", ()) or len(ev.get("ops", ())) != 1 \
+        or out.pre is None or not out.ok:
+      return
+    pre, post = out.pre, sim.sigma
+    dvp, dvq = DocView(pre), DocView(post)
+    # what got renamed (by metadata row id)
+    renames = {}
+    for ref, t in dvp.table_by_ref.items():
+      t2 = dvq.table_by_ref.get(ref)
+      if t2 is not None and t2.tableId != t.tableId:
+        renames[t.tableId] = t2.tableId
+    col_renames = {}
+    for ref, c in dvp.col_by_ref.items():
+      c2 = dvq.col_by_ref.get(ref)
+      if c2 is not None and c2.colId != c.colId:
+        renames[c.colId] = c2.colId
+        col_renames[ref] = (c.colId, c2.colId)
+    if set(dvp.col_by_ref) != set(dvq.col_by_ref):
+      # e.g. a label change that converts nothing but adds helper columns: not expected
+      sim.count("probe.rename_changed_column_set")
+    checked = 0
+    for ref, c in dvp.col_by_ref.items():
+      c2 = dvq.col_by_ref.get(ref)
+      if c2 is None:
+        continue
+      if c.formula:
+        self._check_text(sim, c, c2, renames, ev)
+      if not (c.isFormula and c.formula):
+        continue
+      t, t2 = c.table, c2.table
+      if t.tableId not in pre or t2.tableId not in post:
+        continue
+      a = dict(zip(pre[t.tableId][2], pre[t.tableId][3].get(c.colId, [])))
+      b = dict(zip(post[t2.tableId][2], post[t2.tableId][3].get(c2.colId, [])))
+      if set(a) != set(b):
+        raise vio(sim, "rename-rows", "%s rows changed during a rename" % t.tableId)
+      for r in a:
+        if eq.norm(_strip_table_ids(a[r], renames)) != eq.norm(_strip_table_ids(b[r], renames)):
+          raise vio(sim, "rename-changed-value", "%s[%s].%s (now %s.%s) was %r, after %s it is %r; "
+                    "formula %r -> %r" % (t.tableId, r, c.colId, t2.tableId, c2.colId, a[r],
+                                          json.dumps(ev["a"], default=repr)[:160], b[r], c.formula, c2.formula))
+        checked += 1
+    sim.count("oracle.rename_values", checked)
+    if renames:
+      sim.count("oracle.nontrivial")
+      sim.count("probe.effective_renames")
+      sim.shapes.add("%s/%s" % (self.shape(sim)[:120], ev["a"][0][0]))
+
+  def _check_text(self, sim, c, c2, renames, ev):
+    if c.formula == c2.formula:
+      return
+    old = _TOKEN.findall(c.formula)
+    new = _TOKEN.findall(c2.formula)
+    ok = len(old) == len(new)
+    if ok:
+      for x, y in zip(old, new):
+        if x == y:
+          continue
+        if x.lstrip("$") in renames and y == x.replace(x.lstrip("$"), renames[x.lstrip("$")]):
+          continue
+        if x[:1] in "\"'" and y[:1] == x[:1]:
+          # a quoted column id (order_by / group_by / sort_by), possibly with a leading '-'
+          inner_x, inner_y = x[1:-1], y[1:-1]
+          sign = "-" if inner_x.startswith("-") else ""
+          if inner_x[len(sign):] in renames and inner_y == sign + renames[inner_x[len(sign):]]:
+            continue
+        ok = False
+        break
+    if not ok:
+      raise vio(sim, "rename-text", "formula of %s.%s changed beyond the renamed name tokens: %r -> %r "
+                "(renames %r)" % (c.table.tableId, c.colId, c.formula, c2.formula, renames))
+    sim.count("probe.formula_texts_rewritten")
+
+
+def _strip_table_ids(v, renames):
+  """Encoded record references embed the table id (['R', 'T1', 3]): map old ids to new ones."""
+  if isinstance(v, list):
+    if len(v) >= 2 and v[0] in ("R", "r") and isinstance(v[1], str):
+      return [v[0], renames.get(v[1], v[1])] + [_strip_table_ids(x, renames) for x in v[2:]]
+    return [_strip_table_ids(x, renames) for x in v]
+  return v
+
+
+PROFILES = [C13(), C14(), C39(), C28(), C23(), C16()]
